@@ -579,7 +579,9 @@ def variant(sg, v):
         s += 1
     elif v == 5:
         s -= 1
-    n = Signature(r, s, public_key=sg.public_key, hash_type=1)
+    # r / s change; the hash-type byte the signature carries is not part of this edit (a third-party signature placed
+    # for another hash type keeps its byte)
+    n = Signature(r, s, public_key=sg.public_key, hash_type=sg.hash_type)
     n._c02_var = v
     return n
 
